@@ -5,6 +5,7 @@ SPECIFICATION Spec
 CONSTANTS Family = "labels"
           G = 4
           LTwo = FALSE
+          EmitTwoRequests = TRUE
 INVARIANTS C48_ResultSatisfiesProperty FunctionalFormAgrees
 PROPERTY Progress
 CHECK_DEADLOCK TRUE
